@@ -688,7 +688,7 @@ def bpki_stage1(ctx, bag, st):
     for n in (16, 23, 25, 33, 0, 65):
         add("pk", rng.randbytes(n), b"zed", rng.randbytes(8), 10000, str(BAD_PRIVKEY), "bpki:wrap:keylen", "private key of %d octets accepted" % n)
     for sh in (b"\1" + rng.randbytes(15), b"\1" + rng.randbytes(17), bytes(17), b"\x11" + rng.randbytes(16), b"\0" + rng.randbytes(32), b""):
-        add("sh", sh, b"zed", rng.randbytes(8), 10000, str(BAD_SECKEY), "bpki:wrap:share", "invalid share accepted")
+        add("sh", sh, b"zed", rng.randbytes(8), 10000, str(BAD_SHAREKEY), "bpki:wrap:share", "invalid share accepted")
     gen = [("pk", 24, 10000), ("pk", 32, 10000), ("pk", 48, 10001), ("pk", 64, 10000), ("sh", 17, 10000), ("sh", 25, 10000), ("sh", 33, 10007)]
     if quick:
         gen = [gen[i] for i in sorted(rng.sample(range(7), 4))]
